@@ -514,6 +514,27 @@ pub fn never_blocks(op: &str, log: &[Call], nonblocking: &BTreeSet<i32>) -> Resu
     Ok(())
 }
 
+/// A descriptor closed twice within one call, without having been handed out again in between: the second close
+/// hits whatever another thread has opened under that number since.
+pub fn no_double_close(op: &str, log: &[Call]) -> Result<(), Failure> {
+    let mut closed: BTreeSet<i32> = BTreeSet::new();
+    for c in log {
+        let ret = c.ret as isize;
+        // calls that hand out a descriptor number make it live again
+        let creates = [sc::nr::SOCKET, sc::nr::ACCEPT, sc::nr::ACCEPT4, sc::nr::OPENAT, sc::nr::DUP3];
+        if creates.contains(&c.nr) && ret >= 0 {
+            closed.remove(&(ret as i32));
+        }
+        if c.nr == sc::nr::CLOSE {
+            let fd = c.args[0] as i32;
+            if !closed.insert(fd) {
+                return Err(Failure::new(format!("{op}|double-close|same descriptor closed twice in one call"), format!("{op} called close({fd}) twice without the number having been handed out again in between: the second close destroys whatever another thread opened under that number meanwhile")));
+            }
+        }
+    }
+    Ok(())
+}
+
 pub fn cstring(p: &str) -> CString {
     CString::new(p).unwrap()
 }
